@@ -206,6 +206,15 @@ class Family:
                         other.insert(tf.Point(time=V.dt_of(T0 + 1), tags={"o": "a,b;c|d\te'f"}))
                     for j, pt in enumerate(sample):
                         db.insert(self.mkpoint(tf, pt), compact_key_prefixes=(j % 2 == 0))
+                    extra_tag = None
+                    if enc == "latin-1" and sample and i % 2 == 0:
+                        # a rewrite that introduces a text the file's encoding cannot hold: either it is refused (the
+                        # rows stay as they were) or the text comes back as written
+                        try:
+                            db.update_all(tags={"cur": "5 \u20ac menu"})
+                            extra_tag = ("cur", "5 \u20ac menu")
+                        except (UnicodeError, ValueError):
+                            pass
                     if i % 2 == 1:
                         # the rows also survive being rewritten (remove / update stream every kept row through
                         # deserialize -> serialize, twice here) in the same session
@@ -236,6 +245,12 @@ class Family:
                             pass
                 tzctx.__exit__()
                 exp = [V.show_point(self.mkpoint(tf, pt)) for pt in sample]
+                if locals().get("extra_tag"):
+                    def with_tag(pt):
+                        q = self.mkpoint(tf, pt)
+                        q.tags[extra_tag[0]] = extra_tag[1]
+                        return q
+                    exp = [V.show_point(with_tag(pt)) for pt in sample]
                 stats["files"] += 1
                 stats["points"] += len(sample)
                 if got != exp and len(findings) < 5:
